@@ -177,6 +177,7 @@ let handle (i : string list) (o : string list) =
     let dropped = ref false in
     let impl_panic = ref false in
     let c17_fail = ref None in
+    let soft = ref false in   (* the only disagreement so far is the return code of a call: the model goes on *)
     let after_cleanup = ref false in
     let got_syms = ref [] in
     let fdt_pkts = ref [] in
@@ -209,11 +210,17 @@ let handle (i : string list) (o : string list) =
           let e_i = int_of_string (get "e" "16") and b_i = int_of_string (get "b" "4") in
           let fdte = (try int_of_string (get "fdte" "1400") with _ -> 1400) in
           let cache = (try int_of_string (get "cache" "10485760") with _ -> 10485760) in
-          if not (p_C17_heap_cfg (n_of_int (Hashtbl.length gtbl)) (n_of_int (Hashtbl.length ftbl)) (n_of_int cache)
-                    (n_of_int (max e_i fdte + 128)) (n_of_int (e_i * b_i)) (z_of_string bytes)) then
+          (* flood scenario: `arg` more FDT instance ids, each of which may cache up to the FDT object's own
+             fixed limit of 1 MiB in datagrams of 60 kB, until the time-out has elapsed and cleanup ran *)
+          let flood = (channel = "fdtflood") in
+          let nflood = (if flood then (try int_of_string (List.nth xsec 3) with _ -> 0) else 0) in
+          let cache = if flood then max cache 1048576 else cache in
+          let maxpk = if flood then 60200 else max e_i fdte + 128 in
+          if not (p_C17_heap_cfg (n_of_int (Hashtbl.length gtbl)) (n_of_int (Hashtbl.length ftbl + nflood)) (n_of_int cache)
+                    (n_of_int maxpk) (n_of_int (e_i * b_i)) (z_of_string bytes)) then
             c17_fail := Some (Printf.sprintf "P_C17_heap_cfg@ev%d:heap=%s" !nev bytes)
         end;
-        if prop = "c17" && !diff = None && not !abstain then begin
+        if prop = "c17" && (!diff = None || !soft) && not !abstain then begin
           let e_i = int_of_string (get "e" "16") and b_i = int_of_string (get "b" "4") in
           let fdte = (try int_of_string (get "fdte" "1400") with _ -> 1400) in
           let maxpkt = n_of_int (max e_i fdte + 128) and maxblk = n_of_int (e_i * b_i) in
@@ -224,12 +231,13 @@ let handle (i : string list) (o : string list) =
                                 (int_of_n (recv_ledger !st)) (int_of_n (recv_items !st)))
         end
       | ["Q"; nbobj; nberr] ->
-        if !diff = None && !after_cleanup && prop = "c17" && !c17_fail = None
+        if (!diff = None || !soft) && !after_cleanup && prop = "c17" && !c17_fail = None
            && not (p_C17_cleanup_releases (n_of_int (fst !last_model_q)) (n_of_int (int_of_string nbobj))) then
           c17_fail := Some (Printf.sprintf "P_C17_cleanup_releases@ev%d:held=%s:expected_at_most=%d" !nev nbobj (fst !last_model_q));
         after_cleanup := false;
-        if !diff = None && !last_model_q <> (int_of_string nbobj, int_of_string nberr) then
-          diff := Some (Printf.sprintf "ev%d:queries:model=%d,%d" !nev (fst !last_model_q) (snd !last_model_q))
+        if (!diff = None || !soft) && !last_model_q <> (int_of_string nbobj, int_of_string nberr) then begin
+          diff := Some (Printf.sprintf "ev%d:queries:model=%d,%d" !nev (fst !last_model_q) (snd !last_model_q)); soft := false
+        end
       | ev ->
         incr nev;
         let (mev, ires) = (match ev with
@@ -274,13 +282,13 @@ let handle (i : string list) (o : string list) =
             | ["Z"; res] -> dropped := true; (RvDrop, res)
             | _ -> failwith ("event " ^ tok)) in
         if ires = "PANIC" then impl_panic := true;
-        if !diff = None then begin
+        if !diff = None || !soft then begin
           let ((mres, s1), c1) = recv_step env parse_fdt cfg !st mev !ctx in
           let mres_s = if c1.c_panic then "PANIC" else (match mres with POk -> "Ok" | PErr -> "Err") in
           let ires_c = (match mev with RvUnparsable -> (if ires = "PANIC" then "PANIC" else "Err") | _ -> ires) in
           (* a datagram the parser rejects, or of a foreign TSI, changes nothing; flute answers Err or Ok *)
           if mres_s <> ires_c && not (mev = RvUnparsable && ires <> "PANIC") then
-            diff := Some (Printf.sprintf "ev%d:result:model=%s:impl=%s" !nev mres_s ires);
+            (if !diff = None then (diff := Some (Printf.sprintf "ev%d:result:model=%s:impl=%s" !nev mres_s ires); soft := true));
           if Sys.getenv_opt "C09DEBUG" <> None then
             Printf.eprintf "ev%d %s impl=%s model=%s objs=%d err=%d completed=%d log=%d\n" !nev (List.hd ev) ires mres_s
               (List.length s1.rv_objects) (List.length s1.rv_error) (List.length s1.rv_completed) (List.length c1.c_log);
@@ -411,6 +419,14 @@ let handle (i : string list) (o : string list) =
                     | _ -> false) in
                 let arrived = List.length (List.sort_uniq compare (List.filter_map (fun (i, pid) -> if i = id then Some pid else None) !fdt_pkts)) in
                 lists && arrived >= npk) !finsts in
+            (* C16 (late join, no loss after the join): the premise is two full cycles of the objects AND OF THE
+               FDT, whatever the FDT instances list - a sender that no longer announces a carouselled object
+               must not make the statement vacuous.  Two complete receptions of FDT instances (the same one
+               repeated or two different ones) stand for "two cycles of the FDT". *)
+            let fdt_receptions = List.fold_left (fun acc (id, _, npk) ->
+                let cnt = List.length (List.filter (fun (i, _) -> i = id) !fdt_pkts) in
+                acc + (if npk > 0 then cnt / npk else 0)) 0 !finsts in
+            let fdt_ok = if prop = "c16" then fdt_receptions >= 2 else fdt_ok in
             (* an empty object has no source block: the premise is read as 'its (single, empty) packet arrives' *)
             let recoverable = fdt_ok && (ks <> [] || got <> []) && blocks_recoverable rs (n_of_int (int_of_string (get "par" "0"))) ks N0 got
                               && get "bld" "S" = "S" && get "opn" "1" = "1" && get "wrf" "-" = "-" && not altered
